@@ -265,8 +265,11 @@ def initSt (rooted : Bool) (lens : List Rat) : St :=
   let (t, li) := initTree rooted lens
   { t := t, edges := List.range (numEdges t), tips := [tipName 0, tipName 1], li := li }
 
-/-- shared frame of the three insertion generators -/
-def insertionGen (step : Nat → St → Res St) (n : Int) (rooted : Bool) (lens : List Rat) : Res Out :=
+/-- pinned variant (before f417e91): the frame of the three insertion generators with the guards
+    "less than 2 tips" (unrooted) / "less than 3 tips" (rooted): the 2-tip unrooted call passes them,
+    draws one length and ends in the unrelated error of `RerootFirst` (the Go code returned the tree
+    together with that error) -/
+def insertionGenDoc2 (step : Nat → St → Res St) (n : Int) (rooted : Bool) (lens : List Rat) : Res Out :=
   if n < 2 then .err errLess2
   else if n < 3 && rooted then .err errLess3
   else
@@ -274,6 +277,13 @@ def insertionGen (step : Nat → St → Res St) (n : Int) (rooted : Bool) (lens 
     | .ok s => finishIns rooted s.t
     | .err m => .err m
     | .panic m => .panic m
+
+def errLess3All : String := "Cannot create a random binary tree with less than 3 tips"
+
+/-- shared frame of the three insertion generators (since f417e91 one guard, whatever the rootedness;
+    from 3 tips on the rest is unchanged) -/
+def insertionGen (step : Nat → St → Res St) (n : Int) (rooted : Bool) (lens : List Rat) : Res Out :=
+  if n < 3 then .err errLess3All else insertionGenDoc2 step n rooted lens
 
 def uniform (n : Int) (rooted : Bool) (ints : List Nat) (lens : List Rat) : Res Out :=
   insertionGen (uniformStep ints lens) n rooted lens
@@ -443,12 +453,11 @@ def GenKind.nints (g : GenKind) (n : Nat) : Nat :=
   | .uniform | .yule => n - 2
   | _ => 0
 
-/-- number of `gostats.Exp` calls of a call with size `n` (also for the rejected sizes: the 2-tip
-    unrooted call of an insertion generator draws one length before `RerootFirst` fails) -/
+/-- number of `gostats.Exp` calls of a call with size `n` (none for a rejected size) -/
 def GenKind.nlens (g : GenKind) (n : Int) (rooted : Bool) : Nat :=
   match g with
   | .uniform | .yule | .caterpillar =>
-    if n < 2 || (n < 3 && rooted) then 0
+    if n < 3 then 0
     else (if rooted then 2 else 1) + 3 * (n.toNat - 2)
   | .balanced => if n < 1 || (n < 2 && !rooted) then 0 else 2 * (2 ^ n.toNat - 1)
   | .star => 0
@@ -456,7 +465,7 @@ def GenKind.nlens (g : GenKind) (n : Int) (rooted : Bool) : Nat :=
 /-- number of `rand.Intn` calls, for every size -/
 def GenKind.nintsZ (g : GenKind) (n : Int) (rooted : Bool) : Nat :=
   match g with
-  | .uniform | .yule => if n < 2 || (n < 3 && rooted) then 0 else n.toNat - 2
+  | .uniform | .yule => if n < 3 then 0 else n.toNat - 2
   | _ => 0
 
 /-- the draws are values `Intn` can return -/
